@@ -68,6 +68,9 @@ func (r *TrailingWhitespaceRule) Check(ctx *linter.Context) ([]linter.Violation,
 	// analysed with literal and comment content masked: blanks at the end of a line of a
 	// multi-line literal, or of a comment, are content, not layout
 	for lineNum, line := range linter.MaskedLines(ctx.SQL) {
+		// the carriage return of a CR-LF line ending belongs to the line ending, not to the line
+		line = strings.TrimSuffix(line, "\r")
+
 		// Check if line has trailing whitespace
 		if len(line) == 0 {
 			continue
@@ -114,6 +117,11 @@ func (r *TrailingWhitespaceRule) Fix(content string, violations []linter.Violati
 	lines := strings.Split(content, "\n")
 
 	for i, line := range lines {
+		if body, ok := strings.CutSuffix(line, "\r"); ok {
+			// CR-LF line ending: the blanks before it are the trailing ones
+			lines[i] = strings.TrimRight(body, " \t") + "\r"
+			continue
+		}
 		lines[i] = strings.TrimRight(line, " \t")
 	}
 
